@@ -94,6 +94,23 @@ def subharnesses(tier):
                                 'traits': 2, 'rank': 100}],
                     'apps': apps, 'event': ['none']}
             subs.append((_name(topo, 'alloctraits', g1.ptag(pl)), spec))
+        # ---- the allocation gains / loses a trait under its instances
+        for pl in [(0, None, None), (1, None, 0), (None, None, None),
+                   (0, 1, None)]:
+            for t0, t1 in ((0, 2), (2, 0), (1, 3)):
+                if t0 and any(j == 0 and (1 & t0) != t0 for j in pl[:2]):
+                    continue
+                apps = [{'place': j, 'alloc': ['_default', 't']} if i != 2
+                        else {'place': j} for i, j in enumerate(pl)]
+                spec = {'topo': topo, 'D': D,
+                        'servers': [{'traits': 1}, {'traits': 3}],
+                        'allocs': [{'path': [], 'label': '_default'},
+                                   {'path': ['t'], 'label': '_default',
+                                    'traits': t0, 'rank': 100}],
+                        'apps': apps,
+                        'event': ['alloc_traits', ['_default', 't'], t1]}
+                subs.append((_name(topo, 'alloctraits-change', g1.ptag(pl),
+                                   '%dto%d' % (t0, t1)), spec))
         # ---- leases against symbolic valid_until, renewals
         for pl in g1.placements(A, 2):
             for leases in ((LEASE, 0, LEASE), (0, LEASE, LEASE)):
@@ -119,7 +136,98 @@ def subharnesses(tier):
                                        g1.ptag(pl),
                                        'renew' + ''.join(map(str, rv))),
                                  spec))
+    return subs + _master_subs(tier)
+
+
+MALLOC = {'name': 'proid/x', 'partition': 'p0', 'rank': 100, 'memory': '0G',
+          'cpu': '0%', 'disk': '0G',
+          'assignments': [{'pattern': 'proid.web*', 'priority': 50}]}
+
+
+def _master_subs(tier):
+    """Master level (real Master / Loader on MemBackend): the allocation of
+    queued instances gains or loses a trait, or moves to another partition,
+    through an 'allocations' event; a server without the trait (or of the old
+    partition) then has room.  Required traits and partition are taken from
+    the stored configuration, not from the model."""
+    subs = []
+    servers = [{'partition': 'p0', 'traits': []},
+               {'partition': 'p0', 'traits': ['ssd']}]
+    for recs in ([[], []], [[1], []], [[0], []]):
+        for alloc0, alloc1 in (([], ['ssd']), (['ssd'], []), (['ssd'], ['ssd'])):
+            if alloc0 == ['ssd'] and recs[0] == [0]:
+                continue            # recorded on a server without the trait
+            for order in (('allocations', 'presence_up'),
+                          ('presence_up', 'allocations')):
+                spec = {'level': 'master', 'nservers': 2, 'traits': ['ssd'],
+                        'servers': servers, 'presence': [False, True],
+                        'apps': [{'recorded': r} for r in recs],
+                        'allocations': [dict(MALLOC, traits=list(alloc0))],
+                        'events': [
+                            ['allocations',
+                             [dict(MALLOC, traits=list(alloc1))]]
+                            if o == 'allocations' else ['presence_up', 0]
+                            for o in order]}
+                subs.append((_name('master-alloctraits',
+                                   ''.join(str(len(r)) for r in recs),
+                                   'ssd' if alloc0 else 'none', 'to',
+                                   'ssd' if alloc1 else 'none',
+                                   order[0]), spec))
+    # instances that ask for the trait themselves, allocation without traits
+    for recs in ([[], []], [[1], []]):
+        spec = {'level': 'master', 'nservers': 2, 'traits': ['ssd'],
+                'servers': servers, 'presence': [False, True],
+                'apps': [{'recorded': recs[0], 'traits': ['ssd']},
+                         {'recorded': recs[1]}],
+                'allocations': [dict(MALLOC)],
+                'events': [['presence_up', 0], ['none']]}
+        subs.append((_name('master-apptraits',
+                           ''.join(str(len(r)) for r in recs)), spec))
     return subs
+
+
+def _master_harness(S, spec):
+    import g2
+    W = g2.base_store(S, spec)
+    m = g2.new_master(W)
+    g2.start(W, m)
+    b = W.backend
+
+    def oracle(tag):
+        allocs = b.get('/allocations') or []
+        for name, app in m.cell.apps.items():
+            if not app.server:
+                continue
+            S.reach('placed')
+            rec = b.get('/servers/' + app.server)
+            need = set((b.get('/scheduled/' + name) or {}).get('traits', []))
+            part = None
+            for a in allocs:
+                for asg in a.get('assignments', []):
+                    if name.startswith(asg['pattern'].rstrip('*')):
+                        need |= set(a.get('traits', []))
+                        part = a.get('partition')
+            S.check('C03:placed_on_server_lacking_required_trait' + tag,
+                    need <= set(rec.get('traits', [])),
+                    {'app': name, 'server': app.server,
+                     'required': sorted(need),
+                     'offered': rec.get('traits', [])})
+            if part is not None:
+                S.check('C03:placed_instance_on_foreign_partition' + tag,
+                        (rec.get('partition') or '_default') == part,
+                        {'app': name, 'server': app.server})
+            S.check('C03:placed_on_server_without_presence' + tag,
+                    b.exists('/server.presence/' + app.server) or
+                    name in (spec.get('retained') or []),
+                    {'app': name, 'server': app.server})
+    for k, ev in enumerate(spec['events']):
+        g2.apply_event(W, m, ev)
+        g2.cycle(W, m)
+        oracle(':after_event%d' % k)
+    g2.cycle(W, m)
+    oracle(':idle')
+    S.reach('scheduled')
+    S.reach('master_level')
 
 
 def budget(tier, name):
@@ -127,6 +235,8 @@ def budget(tier, name):
 
 
 def harness(S, spec):
+    if spec.get('level') == 'master':
+        return _master_harness(S, spec)
     W = g1.build(S, spec)
     g1.apply_event(W, tuple(spec['event']))
     states = g1.server_states(W)
@@ -145,8 +255,11 @@ META = {
         'Node.check_app_constraints', 'Server.check_app_lifetime',
         'Server.renew', 'Server.put', 'Server.restore', 'Bucket.put',
         'TraitSet.has', 'Application.traits', 'Cell.add_app (move between '
-        'allocations)'],
+        'allocations)', 'Master.process_events (allocations, servers)',
+        'Loader.load_allocations / load_app / find_assignment',
+        'Allocation.set_traits', 'Master.process_server_presence'],
     'reach_required': ['scheduled', 'new_assignment',
                        'new_assignment_with_lease', 'renewal_attempted',
-                       'eviction_put', 'restored_after_failed_renew'],
+                       'eviction_put', 'restored_after_failed_renew',
+                       'master_level', 'placed'],
 }
